@@ -168,6 +168,10 @@ def decode(eng, st, v):
         return None
     for vi, fs in v.variants:
         ns = st.fork() if len(v.variants) > 1 else st
+        try:
+            eng.M.refine_enum(ns, v, {vi})
+        except Dead:
+            continue
         if vi == 0:
             tup = force(eng, ns, fs[0])
             if isinstance(tup, Struct) and len(tup.fields) == 2:
